@@ -230,3 +230,88 @@ def _dtr_roundtrip(B):
     returns the same trend t both times: (z - t) + t == z"""
     z, t = B.real("z"), B.real("t")
     return [("roundtrip", (z - t) + t == z)]
+
+
+# ----------------------------------------------------------------------------- log / Box-Cox: element-wise, index kept, inverse uses the SAME parameter
+BC = "sktime/transformations/series/boxcox.py"
+
+
+def _ew_inputs(clsname, fitted_lambda):
+    def inputs(B, case):
+        I = B.I
+        ok, cls = I.mod_global(I.src.module("sktime.transformations.series.boxcox"), clsname)
+        obj = I.instantiate(cls, [], {})
+        obj.attrs["_is_fitted"] = case != "unfitted"
+        if fitted_lambda:
+            obj.attrs["lambda_"] = B.real("lambda_")
+        return {"self": obj, "Z": sym_series(B, "z", nonempty=True), "X": None}
+    return inputs
+
+
+def _ew_post(fname, with_lambda):
+    def post(A, r):
+        from pyvc.libnp import _real_fun
+        from pyvc import spec as _S
+        f = _real_fun(_S.CUR.ctx, fname, 2 if with_lambda else 1)
+        if not isinstance(r, SSeries):
+            return False
+        n = A.Z.index.len
+        ex = [Z(A.self.attrs["lambda_"])] if with_lambda else []
+        return And(equiv(r.index, A.Z.index), Eq(r.values.len, n),
+                   ForAll(lambda i: Eq(r.values.fn(i), f(Z(A.Z.values.fn(i)), *ex)), 0, n, "i"))
+    return post
+
+
+for _cls, _m, _fn, _lam in (("LogTransformer", "transform", "log", False), ("LogTransformer", "inverse_transform", "exp", False),
+                            ("BoxCoxTransformer", "transform", "boxcox", True), ("BoxCoxTransformer", "inverse_transform", "inv_boxcox", True)):
+    contract(f"{BC}::{_cls}.{_m}", "C13,C12", cases=["fitted", "unfitted"], inputs=_ew_inputs(_cls, _lam),
+             raises=[("NotFittedError", lambda A: A.self.attrs["_is_fitted"] is False)],
+             ensures=[(f"element-wise-{_fn}-with-the-fitted-parameter-on-the-same-index", _ew_post(_fn, _lam))],
+             frame=lambda A: [A.self, A.Z],
+             notes=["log / exp / boxcox / inv_boxcox are uninterpreted real functions: the contract fixes WHICH function is applied to which "
+                    "value with which parameter and that the index is kept; exp(log x) = x and inv_boxcox(boxcox(x, l), l) = x are "
+                    "mathematical facts about these functions (assumed, compared numerically by the bounded tier)"])
+
+
+# ----------------------------------------------------------------------------- fit_transform == fit followed by transform (Box-Cox: the lambda search honours `method` / `bounds`)
+def _normmax_returns(A):
+    from pyvc import spec as _S
+    from pyvc.libmodels import Event
+    ctx = _S.CUR.ctx
+    lam = ctx.fresh_real("fitted_lambda")
+    ctx.trace.append(Event(None, "call:_boxcox_normmax", [A.x], {"bounds": A.bounds, "method": A.method}, lam, getattr(ctx, "loop_k", None)))
+    return lam
+
+
+contract(f"{BC}::_boxcox_normmax", "C13", cases=["-"], assumed=True, inputs=lambda B, case: {}, returns=_normmax_returns,
+         notes=["ASSUMED: _boxcox_normmax(x, bounds, method) returns the lambda maximising the chosen criterion (scipy optimiser); recorded "
+                "with its arguments"])
+
+
+def _bcft_inputs(B, case):
+    I = B.I
+    ok, cls = I.mod_global(I.src.module("sktime.transformations.series.boxcox"), "BoxCoxTransformer")
+    obj = I.instantiate(cls, [], {"bounds": B.opaque("bounds"), "method": case})
+    return {"self": obj, "Z": sym_series(B, "z", nonempty=True), "X": None}
+
+
+def _bcft_post(A, r):
+    from pyvc.libnp import _real_fun
+    from pyvc import spec as _S
+    evs = [e for e in _trace() if e.method == "call:_boxcox_normmax"]
+    if len(evs) != 1 or not isinstance(r, SSeries):
+        return False
+    e = evs[0]
+    lam = e.result
+    f = _real_fun(_S.CUR.ctx, "boxcox", 2)
+    n = A.Z.index.len
+    return And(e.kwargs.get("method") == A.self.attrs["method"], e.kwargs.get("bounds") is A.self.attrs["bounds"],
+               A.self.attrs.get("_is_fitted") is True, A.self.attrs.get("lambda_") is lam,
+               equiv(r.index, A.Z.index), ForAll(lambda i: Eq(r.values.fn(i), f(Z(A.Z.values.fn(i)), lam)), 0, n, "i"))
+
+
+contract(f"{BC}::BoxCoxTransformer.fit_transform", "C13", cases=["mle", "pearsonr", "all"], inputs=_bcft_inputs,
+         ensures=[("same-as-fit-then-transform:lambda-searched-with-the-configured-method-and-bounds", _bcft_post, {"modular": False})],
+         frame=lambda A: [A.Z],
+         notes=["target resolves to whatever fit_transform the class has (today the inherited fit(Z).transform(Z)); the lambda search is an "
+                "assumed, recorded contract"])
